@@ -204,3 +204,14 @@ impl Reasoner {
     }
 }
 
+/// Verification hook (only with `--cfg kolibrie_verif`): exposes the repair list computed for the current facts.
+#[cfg(kolibrie_verif)]
+impl Reasoner {
+    pub fn verif_compute_repairs(&self) -> Vec<Vec<Triple>> {
+        let all_facts: HashSet<Triple> = self.dataset_index.query(None, None, None).into_iter().collect();
+        self.compute_repairs(&all_facts)
+            .into_iter()
+            .map(|r| r.into_iter().collect())
+            .collect()
+    }
+}
